@@ -5,9 +5,9 @@
    which branches start at once, which are skipped, and when a held-back branch is released. *)
 From Coq Require Import List Arith ZArith Bool.
 Import ListNotations.
-From Acts.Gen Require Import GenState.
+From Acts.Gen Require Import GenState GenReady.
 From Acts.Model Require Import Engine.
-From Acts.Proofs Require Import EngineLemmas LogInv C02Ops FinalProofs.
+From Acts.Proofs Require Import EngineLemmas LogInv C02Ops FinalProofs StatePred Ready.
 
 (* a needs-branch starts exactly when a needed sibling has finished *)
 Theorem C04_needs_branch_release :
@@ -55,8 +55,17 @@ Example C04_example_sequence :
               Build_node 2 KStep 1 [] None None false [] dspec [] [] [] [] [] [] false ] in
   existsb (fun x => match x with ENew _ 2 (Some 1) _ VNext => true | _ => false end) (trace (run ns 1000 [ODrain])) = true.
 Proof. vm_compute. reflexivity. Qed.
+(* the release rule, statically tied to the source: gen/GenReady.v is regenerated from Task::is_ready (task.rs) on every
+   run -- the state predicate a needed sibling must satisfy, the predicate every sibling must satisfy for an else branch,
+   the predicates one of which makes an else branch give up, and the state it is then written.  `ready_of_source` reads
+   these through the state predicates regenerated from state.rs; the model's `is_ready` (which the two release theorems
+   above are about, and which every run of the model uses) is that function, for every engine state and task. *)
+Theorem C04_release_rule_matches_source : forall e i, is_ready e i = ready_of_source e i.
+Proof. exact ready_match. Qed.
+
 Print Assumptions C04_needs_branch_release.
 Print Assumptions C04_else_branch_release.
 Print Assumptions C04_others_not_held.
 Print Assumptions C04_branch_init.
 Print Assumptions C04_successor_starts_after_predecessor_is_terminal.
+Print Assumptions C04_release_rule_matches_source.
